@@ -31,14 +31,15 @@ fn tier_name(t: Tier) -> &'static str {
 /// number of generated histories per (property, tier)
 fn default_runs(prop: &str, tier: Tier) -> u64 {
     let q = match prop {
-        "C18" => 4_000,
-        "C01" | "C02" => 120_000,
-        "C13" | "C17" => 150_000,
-        _ => 250_000,
+        "C18" => 10_000,
+        "C01" | "C02" => 300_000,
+        "C13" | "C17" => 350_000,
+        "C03" | "C04" | "C05" | "C12" | "C16" => 500_000,
+        _ => 600_000,
     };
     match tier {
         Tier::Quick => q,
-        Tier::Thorough => q * 10,
+        Tier::Thorough => q * 6,
     }
 }
 
@@ -51,6 +52,7 @@ pub fn main(args: &[String]) -> i32 {
         Some("digest") => digest(args),
         Some("show") => show(args),
         Some("slice") => slice(args),
+        Some("distill") => distill(args),
         Some("emit") => emit(args),
         _ => {
             eprintln!("usage: cachesim check|worker|replay|digest|show ...");
@@ -72,7 +74,11 @@ fn slice(args: &[String]) -> i32 {
     let tier = tier_of(args);
     let mut bad = 0;
     let mut execs = 0u64;
-    for i in from..to {
+    let indices: Vec<u64> = match arg(args, "--indices") {
+        Some(s) => s.split(',').filter_map(|x| x.trim().parse().ok()).collect(),
+        None => (from..to).collect(),
+    };
+    for i in indices {
         let mut t = gen::gen(prop, seed, i, tier);
         t.events.truncate(max_events);
         eprintln!("RUN {}", i);
@@ -91,6 +97,48 @@ fn slice(args: &[String]) -> i32 {
     } else {
         0
     }
+}
+
+/// `cachesim distill --prop P --from A --to B --max M`: native pre-pass that picks the run indices
+/// which reach a probe / model branch / fault site no earlier pick reached (greedy), so that the
+/// slow executors (Miri) spend their budget on runs that cover every reached branch at least once.
+fn distill(args: &[String]) -> i32 {
+    let prop = arg(args, "--prop").unwrap_or("C03");
+    let seed = arg_u64(args, "--seed").unwrap_or(1);
+    let from = arg_u64(args, "--from").unwrap_or(0);
+    let to = arg_u64(args, "--to").unwrap_or(20000);
+    let max = arg_u64(args, "--max").unwrap_or(256) as usize;
+    let max_events = arg_u64(args, "--max-events").unwrap_or(40) as usize;
+    let tier = tier_of(args);
+    let mut seen: BTreeSet<String> = BTreeSet::new();
+    let mut picked: Vec<u64> = Vec::new();
+    for i in from..to {
+        if picked.len() >= max {
+            break;
+        }
+        let mut t = gen::gen(prop, seed, i, tier);
+        if t.events.len() > max_events {
+            continue;
+        }
+        t.faults.clear();
+        let mut tt = t.clone();
+        tt.prop = if prop == "C18" { "C03".into() } else { tt.prop };
+        let r = run_case(&tt);
+        let mut new = false;
+        for k in r.stats.counters.keys() {
+            let key = format!("{}|{}", t.header.kind.name(), k);
+            if !seen.contains(&key) {
+                seen.insert(key);
+                new = true;
+            }
+        }
+        if new {
+            picked.push(i);
+        }
+    }
+    println!("{}", picked.iter().map(|x| x.to_string()).collect::<Vec<_>>().join(","));
+    eprintln!("distilled {} runs covering {} (subject, probe) pairs", picked.len(), seen.len());
+    0
 }
 
 /// `cachesim emit --prop P --index I --executor miri --out FILE`: writes the replay file of a run
@@ -231,7 +279,25 @@ fn worker(args: &[String]) -> i32 {
         if let Some(e) = r.harness_error {
             harness_errors.push(format!("run {}: {}", i, e));
         }
-        if prop != "C18" && lsan_leak() {
+        // LeakSanitizer's check stops the world: do it once per window and pin the run afterwards
+        let window = 512u64;
+        let mut leaking: Option<(u64, Trace)> = None;
+        if prop != "C18" && cfg!(cachesim_asan) && ((i - from) % window == window - 1 || i + 1 == to) && lsan_leak() {
+            let lo = i - (i - from) % window;
+            for j in lo..=i {
+                let tj = gen::gen(&prop, seed, j, tier);
+                let _ = run_case(&tj);
+                if lsan_leak() {
+                    leaking = Some((j, tj));
+                    break;
+                }
+            }
+            if leaking.is_none() {
+                leaking = Some((i, t.clone()));
+            }
+        }
+        if let Some((j, tj)) = leaking {
+            let (i, t) = (j, tj);
             let v = Violation {
                 prop: prop.clone(),
                 oracle: "lsan_leak".into(),
